@@ -5,6 +5,7 @@ import Flumine.Validation
 import Flumine.Controls
 import Flumine.DriverSim
 import Flumine.DriverWorld
+import Flumine.DriverRef
 open Flumine Flumine.Proto
 
 def parseLadder? (s : String) : Option LadderDef :=
@@ -109,6 +110,10 @@ def handle (toks : List String) : String :=
   | "profit" :: rest => (DriverSim.handleProfit rest).getD "bad-op"
   | "simorder" :: rest => (DriverSim.handle rest).getD "bad-op"
   | "validate" :: rest => (handleValidate rest).getD "bad-op"
+  | "ref.valid" :: _ => (DriverRef.handle toks).getD "bad-op"
+  | "ref.setsep" :: _ => (DriverRef.handle toks).getD "bad-op"
+  | "ref.build" :: _ => (DriverRef.handle toks).getD "bad-op"
+  | "ref.inst" :: _ => (DriverRef.handle toks).getD "bad-op"
   | _ => "bad-op"
 
 partial def loop (h : IO.FS.Stream) (out : IO.FS.Stream) (sess : DriverWorld.Session) : IO Unit := do
